@@ -158,6 +158,27 @@ def run(ctx):
                       rules.where(fn, bb), detail=" ".join(s.split()), fn=fn)
             ctx.check(key + ":B6-null", (not keyed) or nonnull,
                       "JSON key lookup skips null (redacted) entries instead of failing to decode them", rules.where(fn, bb), detail=" ".join(s.split()), fn=fn)
+        # (b) a JSON value addressed directly (`col -> path AS x`) and decoded by the caller: `->` yields the JSON text
+        #     'null' for a JSON null (SQL NULL only when the path is absent), so `-> .. IS NOT NULL` does not skip
+        #     redacted entries; `->>` or json_type(..) <> 'null' does
+        for mm in re.finditer(r"(\w+)\s*->\s*(\?\d+)\s+AS\s+(\w+)", s, re.I):
+            # a key chosen at run time: an entry of a map whose values may be null (redacted revisions, comments)
+            m += 1
+            col, pth = mm.group(1), mm.group(2)
+            txt = " ".join(s.split())
+            pe = re.escape(pth)
+            nonnull = bool(re.search(r"json_type\(\s*%s\s*,\s*%s\s*\)\s*(!=|<>)\s*'null'" % (re.escape(col), pe), txt, re.I) or
+                           re.search(r"%s\s*->>\s*%s\s+IS\s+NOT\s+NULL" % (re.escape(col), pe), txt, re.I))
+            ctx.check(key + ":B6-null", nonnull,
+                      "a JSON value selected with `->` and decoded by the caller excludes JSON null (redacted) entries: `-> .. IS NOT NULL` lets "
+                      "them through, `->>`/json_type does not", rules.where(fn, bb), detail=txt, fn=fn)
+            if pth.startswith("?"):
+                tmpl = [o[1].get("s") or o[1].get("b") or "" for b_ in fn["blocks"] for st in b_["s"] if st[0] == "=" for o in rules._rv_operands(st[2])
+                        if o[0] == "k" and isinstance(o[1], dict)] + \
+                       [o[1].get("s") or o[1].get("b") or "" for b_ in fn["blocks"] if b_["t"][0] == "call" for o in b_["t"][2] if o[0] == "k" and isinstance(o[1], dict)]
+                scoped = any(t_ and "$.revisions." in t_ for t_ in tmpl)
+                ctx.check(key + ":B6-scope", scoped, "the JSON path bound to the lookup addresses a direct child of the revisions map",
+                          rules.where(fn, bb), detail=txt, fn=fn)
         for mm in re.finditer(r"(\w+)\s*->>?\s*'(\$[^']*)'", s):
             col, path = mm.group(1), mm.group(2)
             if path.endswith(".status"):
@@ -177,6 +198,42 @@ def run(ctx):
                           "status queries use `$.state.status`, which is where Serialize writes the State tag (tag=%s field=%s)" % (tag_ok, fld_ok),
                           rules.where(fn, bb), fn=fn)
     ctx.floor("sql:cache", m, 5, "JSON-path uses in the cache queries")
+
+    # granularity of the status filter: the direct (uncached) implementation compares the filter with `==`; if the filter
+    # type carries data in a variant (State::Closed { reason }), a cached query that compares only the status tag returns
+    # more than direct evaluation does
+    ng = 0
+    for mod in ("issue", "patch"):
+        q = db.one(r"^radicle::cob::%s::cache::query::list_by_status$" % mod)
+        if q is None:
+            ctx.violated("anchor:%s:list_by_status" % mod, "cache query list_by_status of %s not found" % mod)
+            continue
+        ng += 1
+        fty = q["locals"][3][0] if len(q["locals"]) > 3 else ""
+        adt = db.adt(fty.lstrip("&").strip())
+        payload = [v["n"] for v in (adt or {}).get("variants", []) if v.get("fields")]
+        sqls = [s_ for f_, b_, s_ in sql.statements(db) if f_ is q and s_]
+        compared = set()
+        whole_json = False
+        for s_ in sqls:
+            for mm in re.finditer(r"->>?\s*'\$\.state\.(\w+)'\s*(?:=|IS)\s*\?\d+", s_):
+                compared.add(mm.group(1))
+            if re.search(r"->\s*'\$\.state'\s*=\s*(json\()?\?", s_):
+                whole_json = True
+        needed = {"status"} | {f_["n"] for v in (adt or {}).get("variants", []) for f_ in v.get("fields", [])}
+        tag_only = not whole_json and not needed <= compared
+        full = whole_json or needed <= compared
+        # the uncached sibling compares whole values
+        nocache = [f for f in db.find(r"^<radicle::cob::%s::cache::NoCache<.*list_by_status" % mod)]
+        whole = any(re.search(r"<radicle::cob::%s::\w+ as core::cmp::PartialEq>::eq$|core::cmp::PartialEq::eq$" % mod, c.get("n") or "")
+                    for f in nocache for _, _, c in db.calls(f))
+        ok = (not payload) or (not tag_only) or full
+        ctx.check("sib:%s:list_by_status:granularity" % mod, ok,
+                  "the cached status filter is as fine as the direct comparison: the filter type %s %s, the direct implementation compares with `==`%s, "
+                  "the SQL compares %s" % (cfg.short(fty), ("has data-carrying variants %s" % payload) if payload else "has no data-carrying variant",
+                                          "", ("only {%s} of {%s}" % (", ".join(sorted(compared)), ", ".join(sorted(needed)))) if (tag_only and not full) else "all of {%s}" % ", ".join(sorted(needed))),
+                  rules.where(q), fn=q)
+    ctx.floor("sib:list_by_status", ng, 2, "cached list_by_status queries")
 
 
 def g_reach(fn, bb):
